@@ -25,7 +25,7 @@ def bounded(rep, pid, known):
 
     n = 12 if rep.tier == "quick" else 80
     procs = []
-    for fmt in ("vhd", "vdi", "hds", "vhdx", "vmdk", "hdd"):
+    for fmt in ("vhd", "vdi", "hds", "vhdx", "vmdk", "hdd", "qcow2"):
         for align in (512, 1536, 4096, 8192, 12288):
             env = dict(os.environ, PYTHONPATH=f"{rep.repo}:{VERIF}", DISSECT_STREAM_BUFFER_SIZE=str(align))
             procs.append((fmt, align, subprocess.Popen([PY, "-m", "replay.history_real", fmt, str(rep.seed + align), str(n)], stdout=subprocess.PIPE, stderr=subprocess.PIPE, text=True, env=env, cwd=VERIF)))
